@@ -449,6 +449,15 @@ static void report(const char *tag, struct stats *st, int w) {
 #undef R
 }
 
+/* first failing bit-field call, as an `ops` line */
+static void bf_first(char *buf, size_t len, const char *op, int nb, unsigned __int128 v, int nsh, int b1) {
+	char hex[40]; int k;
+	for (k = 0; k < nb; k++) sprintf(hex + 2 * k, "%02x", (unsigned) ((v >> (8 * (nb - 1 - k))) & 0xff));
+	if (strcmp(op, "ff1") == 0) snprintf(buf, len, "ff1 %d %s", nb, hex);
+	else if (strcmp(op, "shd") == 0) snprintf(buf, len, "shd %d %s %d %d", nb, hex, nsh, b1);
+	else snprintf(buf, len, "%s %d %s %d", op, nb, hex, nsh);
+}
+
 static uint64_t sm_state;
 static uint64_t splitmix(void) {
 	uint64_t z = (sm_state += 0x9E3779B97F4A7C15ULL);
@@ -495,6 +504,70 @@ int main(int argc, char **argv) {
 		report("bulkD", &st, 16);
 		return 0;
 	}
-	fprintf(stderr, "usage: h params | ops | bulkS lo hi | bulkD seed n\n");
+	if (argc >= 4 && strcmp(argv[1], "bulkBF") == 0) {
+		/* util.c bit-field helpers against plain integer arithmetic (unsigned __int128):
+		 * exhaustive for 1- and 2-byte buffers over every shift count, sampled for 4, 8 and
+		 * 10 bytes; only the call shapes xfloat.c uses (in place, bF = b0 = 0). */
+		uint64_t n = strtoull(argv[3], NULL, 0), i, cnt = 0, fail = 0;
+		unsigned char first[96];
+		int nb, nsh, b1;
+		sm_state = strtoull(argv[2], NULL, 0);
+		for (nb = 1; nb <= 10; nb++) {
+			int bits = 8 * nb;
+			uint64_t reps;
+			if (nb != 1 && nb != 2 && nb != 4 && nb != 8 && nb != 10) continue;
+			reps = nb <= 2 ? (1ULL << bits) : n;
+			for (i = 0; i < reps; i++) {
+				unsigned __int128 v, mask, want, got;
+				unsigned char b[16], r[16]; int k;
+				if (nb <= 2) v = i;
+				else { v = ((unsigned __int128) splitmix() << 64) | splitmix();
+				       if (splitmix() & 1) v >>= (int) (splitmix() % bits); }
+				mask = (((unsigned __int128) 1) << bits) - 1;
+				v &= mask;
+				for (nsh = 0; nsh <= bits + 9; nsh++) {
+					if (nb > 2 && (splitmix() & 3)) continue;
+					/* bfShiftUp */
+					for (k = 0; k < nb; k++) b[k] = (unsigned char) (v >> (8 * (nb - 1 - k)));
+					bfShiftUp(nb, b, nsh, b, int0);
+					for (got = 0, k = 0; k < nb; k++) got = (got << 8) | b[k];
+					want = nsh >= bits ? 0 : (v << nsh) & mask;
+					cnt++;
+					if (got != want) { if (!fail) bf_first((char *) first, sizeof first, "shu", nb, v, nsh, 0); fail++; }
+					/* bfShiftDn, b1 = 0 / 1 */
+					for (b1 = 0; b1 <= 1; b1++) {
+						for (k = 0; k < nb; k++) b[k] = (unsigned char) (v >> (8 * (nb - 1 - k)));
+						bfShiftDn(nb, b, nsh, b, int0, b1);
+						for (got = 0, k = 0; k < nb; k++) got = (got << 8) | b[k];
+						want = nsh >= bits ? 0 : v >> nsh;
+						if (b1 && nsh >= 1 && nsh <= bits) want |= ((unsigned __int128) 1) << (bits - nsh);
+						cnt++;
+						if (got != want) { if (!fail) bf_first((char *) first, sizeof first, "shd", nb, v, nsh, b1); fail++; }
+					}
+					/* out of place, the shape of xxAssemble */
+					if (nsh < 8) {
+						for (k = 0; k < nb; k++) b[k] = (unsigned char) (v >> (8 * (nb - 1 - k)));
+						memset(r, 0xA5, sizeof r);
+						bfShiftDn(nb, r, nsh, b, int0, int0);
+						for (got = 0, k = 0; k < nb; k++) got = (got << 8) | r[k];
+						cnt++;
+						if (got != (v >> nsh)) { if (!fail) bf_first((char *) first, sizeof first, "shdo", nb, v, nsh, 0); fail++; }
+					}
+				}
+				/* bfFirst1 */
+				{
+					int want1 = -1, g;
+					for (k = 0; k < nb; k++) b[k] = (unsigned char) (v >> (8 * (nb - 1 - k)));
+					for (k = bits - 1; k >= 0; k--) if ((v >> k) & 1) { want1 = bits - 1 - k; break; }
+					g = bfFirst1(nb, b);
+					cnt++;
+					if (g != want1) { if (!fail) bf_first((char *) first, sizeof first, "ff1", nb, v, 0, 0); fail++; }
+				}
+			}
+		}
+		printf("bulkBF n=%" PRIu64 " fail=%" PRIu64 " first=%s\n", cnt, fail, fail ? (char *) first : "-");
+		return 0;
+	}
+	fprintf(stderr, "usage: h params | ops | bulkS lo hi | bulkD seed n | bulkBF seed n\n");
 	return 2;
 }
